@@ -359,7 +359,7 @@ func TestMeta(t *testing.T) {
 		os.Exit(2)
 	}
 	m := map[string]interface{}{"id": pr.ID, "level": pr.Level, "rule": pr.Rule, "real": pr.Real, "stub": pr.Stub, "assume": pr.Assume,
-		"runs_quick": pr.RunsQuick, "runs_thorough": pr.RunsThorough, "chunk": pr.Chunk, "fault_kinds": pr.FaultKinds}
+		"runs_quick": pr.RunsQuick, "runs_thorough": pr.RunsThorough, "chunk": pr.Chunk, "fault_kinds": pr.FaultKinds, "race_test": pr.RaceTest}
 	if pr.Level == "" {
 		m["level"] = "exploration"
 	}
